@@ -31,8 +31,7 @@ func init() {
 		Deposit: func(ns *native.NativeService) (*scom.MakeTxParam, error) {
 			return ccmsc.NewHandler().MakeDepositProposal(ns)
 		},
-		// badsig: a garbage seal recovers to some unknown key, which is the outsider case (s = "x") of the model
-		NoRule: map[string]bool{"gaslimit": true, "gasused": true, "coinbase": true, "badsig": true}}
+		NoRule: map[string]bool{"gaslimit": true, "gasused": true, "coinbase": true}}
 }
 
 // mscSmoke: does the real msc SyncBlockHeader store a header sealed by a key outside the signer set?
